@@ -172,6 +172,10 @@ var faultKinds = []faultKind{
 	{name: "previous-repeated", apply: func(g, prev []byte) []byte { return append([]byte{}, prev...) }},
 	{name: "command-lost", lost: true, apply: func(g, prev []byte) []byte { return []byte{} }},
 	{name: "command-lost-6f00", lost: true, apply: func(g, prev []byte) []byte { return []byte{0x6F, 0x00} }},
+	// the command never reached the chip and the link layer (or a relay) answered in its place with a
+	// status that has a meaning of its own for the command: "file not found", "SM objects incorrect"
+	{name: "command-lost-6a82", lost: true, apply: func(g, prev []byte) []byte { return []byte{0x6A, 0x82} }},
+	{name: "command-lost-6988", lost: true, apply: func(g, prev []byte) []byte { return []byte{0x69, 0x88} }},
 }
 
 // injector sits between reader and chip.
@@ -198,7 +202,7 @@ func (in *injector) noteFault(fk int, cla, ins int) {
 	if strings.HasPrefix(name, "garbled-") || name == "previous-repeated" {
 		in.Garbled = true
 	}
-	if (name == "sw-6a82" || name == "sw-6283") && cla&0x0C == 0 && ins == 0xA4 {
+	if (name == "sw-6a82" || name == "sw-6283" || name == "command-lost-6a82") && cla&0x0C == 0 && ins == 0xA4 {
 		in.Absence = true
 	}
 }
@@ -293,9 +297,17 @@ func runFaulted(t interface {
 	Logf(string, ...any)
 }, c config, b *baseline, plan map[int]int, check string) (reached bool) {
 	chip := b.p.NewChip()
+	// what a chip answers to a protected command once it has aborted the session differs between
+	// products; the fault-free read never sees it, so it is varied with the plan
+	noSession := []uint16{0x6882, 0x6988, 0x6987, 0x6982}
+	h := len(c.name)
+	for k, f := range plan {
+		h += 3*k + f
+	}
+	chip.Cfg.NoSessionSW = noSession[h%len(noSession)]
 	limit := 20*b.exchanges + 1100
 	in := &injector{chip: chip, plan: plan, MaxCalls: limit}
-	rep := map[string]any{"config": c.name, "plan": planString(plan), "faultFreeExchanges": b.exchanges}
+	rep := map[string]any{"config": c.name, "plan": planString(plan), "faultFreeExchanges": b.exchanges, "chipStatusWithoutSession": fmt.Sprintf("%04x", chip.Cfg.NoSessionSW)}
 	var r *readcheck.Result
 	var err error
 	var escaped any
